@@ -3,7 +3,7 @@
    mapproxy/image/merge.py, service/wms.py and source/wms.py; Pillow's operators are integer formulas. *)
 From Coq Require Import ZArith List Bool Arith.
 Import ListNotations.
-From MP Require Import Base Compose Compose_proofs.
+From MP Require Import Base Compose Compose_proofs Pool Pool_proofs.
 Local Open Scope Z_scope.
 
 (* merge_is_fold_over: for every request option, every list of layers (any number, any modes, opacities,
@@ -109,3 +109,26 @@ Theorem global_clip_keeps_inside :
     nth k (im_px (global_clip o r outside)) dflt =
     if nth k outside true then create_px o else nth k (im_px r) dflt.
 Proof. exact global_clip_pixel. Qed.
+
+(* layer level resolution ranges are the union of the member ranges: a WMS layer (or group) without a configured
+   range renders every request that one of its sources (sub layers) renders; a member without a range makes the
+   layer unlimited.  (hull hypothesis: contract of grid.merge_resolution_range) *)
+Theorem layer_renders_when_a_member_renders :
+  forall members hull_ok h,
+    (forallb fst members = true -> existsb snd members = true -> hull_ok = true) ->
+    In (h, true) members -> layer_res_ok None members hull_ok = true.
+Proof. exact layer_res_ok_member. Qed.
+
+Theorem layer_unlimited_when_a_member_is_unlimited :
+  forall members hull_ok r, In (false, r) members -> layer_res_ok None members hull_ok = true.
+Proof. exact layer_res_ok_unlimited_member. Qed.
+
+(* concurrent rendering (LayerRenderer uses ThreadPool.imap with result objects, model Pool.v of C15): whatever the
+   number of renderer threads, the order in which the upstream requests complete and the hand-over point between
+   the two drain phases, the render results reach LayerMerger.add in layer order, one per layer *)
+Theorem concurrent_render_results_in_layer_order :
+  forall pool_size results completion_order split,
+    is_perm completion_order (length results) ->
+    imap pool_size true results completion_order split = (results, None).
+Proof. exact imap_result_objects. Qed.
+
